@@ -38,14 +38,17 @@ struct Registry {
         if (n < N) e[n++] = {static_cast<char *>(p), sz, ++serial};
         unlock();
     }
-    void del(void *p) {
+    long del(void *p) {   // returns the size of the block, -1 if it was not registered
+        long sz = -1;
         lock();
         for (int i = n - 1; i >= 0; i--)
             if (e[i].base == p) {
+                sz = (long)e[i].size;
                 e[i] = e[--n];
                 break;
             }
         unlock();
+        return sz;
     }
     Block find(const void *q) {
         const char *p = static_cast<const char *>(q);
@@ -75,6 +78,55 @@ struct Registry {
     }
 };
 inline Registry g_reg;
+
+// recycling mode (ctl_storage engine st_mtr): a freed block is kept and handed out again, most recently freed first, to the
+// next request of exactly the same size - what a real malloc does and ASan's allocator deliberately never does. Needed to
+// expose code that compares a pointer with a dangling one (the defect repaired by 1b5a79f).
+struct Recycler {
+    static constexpr int N = 4096;
+    struct E {
+        void *p;
+        std::size_t sz;
+    } e[N];
+    int n = 0;
+    bool on = false;
+    std::atomic_flag lk = ATOMIC_FLAG_INIT;
+    void lock() {
+        while (lk.test_and_set(std::memory_order_acquire)) {
+        }
+    }
+    void unlock() { lk.clear(std::memory_order_release); }
+    void *take(std::size_t sz) {
+        void *r = nullptr;
+        lock();
+        for (int i = n - 1; i >= 0; i--)
+            if (e[i].sz == sz) {
+                r = e[i].p;
+                for (int j = i; j + 1 < n; j++) e[j] = e[j + 1];
+                n--;
+                break;
+            }
+        unlock();
+        return r;
+    }
+    bool give(void *p, std::size_t sz) {
+        bool ok = false;
+        lock();
+        if (n < N) {
+            e[n++] = {p, sz};
+            ok = true;
+        }
+        unlock();
+        return ok;
+    }
+    void flush() {
+        lock();
+        for (int i = 0; i < n; i++) std::free(e[i].p);
+        n = 0;
+        unlock();
+    }
+};
+inline Recycler g_rec;
 inline thread_local long tl_news = 0, tl_dels = 0;   // per-thread tallies (ctl: another thread may run in the middle of an op)
 struct tl_mark {
     long n = tl_news, d = tl_dels;
@@ -271,7 +323,8 @@ inline std::size_t class_size(int k) {
 }  // namespace sh
 
 void *operator new(std::size_t sz) {
-    void *p = std::malloc(sz ? sz : 1);
+    void *p = (vh::t_count && sh::g_rec.on) ? sh::g_rec.take(sz) : nullptr;
+    if (!p) p = std::malloc(sz ? sz : 1);
     if (!p) throw std::bad_alloc();
     if (vh::t_count) {
         vh::g_news.fetch_add(1, std::memory_order_relaxed);
@@ -289,7 +342,8 @@ void operator delete(void *p) noexcept {
     if (vh::t_count) {
         vh::g_deletes.fetch_add(1, std::memory_order_relaxed);
         sh::tl_dels++;
-        sh::g_reg.del(p);
+        long sz = sh::g_reg.del(p);
+        if (sh::g_rec.on && sz >= 0 && sh::g_rec.give(p, (std::size_t)sz)) return;
     }
     std::free(p);
 }
